@@ -653,6 +653,77 @@ fn grids() {
     out::count("grid_cases", n as i128);
 }
 
+/// Regions that ALIAS one another in host memory (windows over one mapping handed in by the caller:
+/// the same host address behind several guest addresses, nested and overlapping windows). The
+/// collection is a set of region OBJECTS keyed by guest range; what the regions point at plays no
+/// part in insertion, removal or derivation.
+#[cfg(not(any(feature = "xen", miri)))]
+fn aliased_host_memory() {
+    use vm_memory::{GuestMemory, GuestMemoryRegion};
+    let owner = new_mapping(0x8000);
+    let p = owner.as_ptr();
+    // (guest start, len, host offset inside the owner mapping)
+    let specs: [(u64, usize, usize); 6] = [(0x0, 0x1000, 0), (0x10000, 0x2000, 0), (0x20000, 0x1000, 0x1000), (0x30000, 0x1000, 0), (0x40000, 0x3000, 0x800 * 2), (0x50000, 0x1000, 0x7000)];
+    let mk = |(g, l, ho): (u64, usize, usize)| -> Arc<GuestRegionMmap<()>> {
+        // SAFETY: a window inside `owner`, which outlives every region built here.
+        let raw = unsafe { MmapRegion::<()>::build_raw(p.add(ho), l, libc::PROT_READ | libc::PROT_WRITE, libc::MAP_PRIVATE | libc::MAP_ANONYMOUS) }.unwrap();
+        Arc::new(GuestRegionMmap::new(raw, GuestAddress(g)).unwrap())
+    };
+    let regs: Vec<Arc<GuestRegionMmap<()>>> = specs.iter().map(|s| mk(*s)).collect();
+    let list = |m: &GuestMemoryMmap<()>| -> Vec<(u64, u64, usize)> { m.iter().map(|r| (r.start_addr().0, r.len(), r as *const _ as usize)).collect() };
+    let want_of = |idx: &[usize]| -> Vec<(u64, u64, usize)> { idx.iter().map(|i| (specs[*i].0, specs[*i].1 as u64, Arc::as_ptr(&regs[*i]) as usize)).collect() };
+    let full = match GuestMemoryMmap::from_arc_regions(regs.clone()) {
+        Ok(m) => m,
+        Err(e) => {
+            v("alias/valid-layout-of-aliasing-regions-refused", jobj! {"error" => err_name(&e)});
+            return;
+        }
+    };
+    if list(&full) != want_of(&[0, 1, 2, 3, 4, 5]) {
+        v("alias/collection-differs-from-the-regions-given", J::dbg(&list(&full)));
+        return;
+    }
+    let mut n = 0u64;
+    for i in 0..specs.len() {
+        match full.remove_region(GuestAddress(specs[i].0), specs[i].1 as u64) {
+            Ok((m2, arc)) => {
+                let rest: Vec<usize> = (0..specs.len()).filter(|k| *k != i).collect();
+                if list(&m2) != want_of(&rest) || !Arc::ptr_eq(&arc, &regs[i]) {
+                    v("alias/remove/result-is-not-the-old-set-minus-the-one-region", jobj! {"removed_guest_start" => specs[i].0, "host_offset_of_the_removed_region" => specs[i].2, "got" => J::dbg(&list(&m2).iter().map(|t| t.0).collect::<Vec<_>>()), "want" => J::dbg(&rest.iter().map(|k| specs[*k].0).collect::<Vec<_>>())});
+                    return;
+                }
+                if list(&full) != want_of(&[0, 1, 2, 3, 4, 5]) {
+                    v("alias/remove/old-map-changed", J::Null);
+                    return;
+                }
+                // remove a second one from the derived map, then put both back in the other order
+                for j in rest.iter().copied() {
+                    if let Ok((m3, arc2)) = m2.remove_region(GuestAddress(specs[j].0), specs[j].1 as u64) {
+                        let rest2: Vec<usize> = rest.iter().copied().filter(|k| *k != j).collect();
+                        let back = m3.insert_region(arc.clone()).and_then(|m| m.insert_region(arc2.clone()));
+                        let ok = list(&m3) == want_of(&rest2) && back.as_ref().map(|m| list(m) == want_of(&[0, 1, 2, 3, 4, 5])).unwrap_or(false);
+                        if !ok {
+                            v("alias/remove+insert/result-differs-from-the-set-model", jobj! {"first_removed" => specs[i].0, "second_removed" => specs[j].0, "after_two_removals" => J::dbg(&list(&m3).iter().map(|t| t.0).collect::<Vec<_>>()), "reinsertion_ok" => back.is_ok()});
+                            return;
+                        }
+                        n += 1;
+                    } else {
+                        v("alias/remove/exact-region-refused", jobj! {"guest_start" => specs[j].0});
+                        return;
+                    }
+                }
+            }
+            Err(e) => {
+                v("alias/remove/exact-region-refused", jobj! {"guest_start" => specs[i].0, "error" => err_name(&e)});
+                return;
+            }
+        }
+    }
+    out::key("alias|regions-sharing-host-memory|remove+insert", true);
+    out::count("aliased_region_derivations", n as i128);
+    out::eval(n);
+}
+
 pub fn run(args: &Args) {
     out::set_quiet_cases(true);
     let (si, _) = args.shard();
@@ -660,6 +731,12 @@ pub fn run(args: &Args) {
         match guarded(grids) {
             Ok(()) => {}
             Err(p) => v(&format!("panic/grid/{}", panic_sig(&p)), J::s(p)),
+        }
+    }
+    #[cfg(not(any(feature = "xen", miri)))]
+    if si == 0 {
+        if let Err(p) = guarded(aliased_host_memory) {
+            v(&format!("panic/alias/{}", panic_sig(&p)), J::s(p));
         }
     }
     for case in args.cases(2000) {
